@@ -48,5 +48,36 @@ impl Run {
     }
 //!end
 }
+
+pub mod core { pub(crate) use super::Config; }
+pub mod result {
+//!const src/app/result.rs RESULT_OUTPUT_FILE_NAME
+pub(crate) const RESULT_OUTPUT_FILE_NAME: &⟦'static ⟧str = "result.json.zst";
+//!end
+}
+impl Config {
+    // ASSUMED (repo function core/mod.rs): <work_path>/<out_dir>/run
+    #[verifier::external_body] pub fn get_run_path(&self, work_path: &path::Path) -> (r: path::PathBuf) { unimplemented!() }
+}
+//!fn src/app/run.rs setup_run_path rules=R1,R10,R16,R17 props=C12,C13
+fn setup_run_path(
+    cfg: &core::Config,
+    run_id: usize,
+    work_path: &path::Path,
+ Tracked(w): Tracked<&mut World>) -> ⟦(res: ⟧Result<path::PathBuf, MonorailError>⟦)⟧
+@    ensures
+@        // C12: nothing of an older run that used the same slot is left over (barring environmental I/O faults) ...
+@        res matches Ok(p) ==> (final(w).io_faults == old(w).io_faults ==> forall|q: Seq<char>| #![trigger fs::under(p@, q)] fs::under(p@, q) ==> !final(w).fs.dom().contains(q)), // [C12]
+@        // ... C13: and nothing outside the slot directory is touched (the recorded run, the pointer, the checkpoint)
+@        res matches Ok(p) ==> forall|q: Seq<char>| #![trigger fs::under(p@, q)] !fs::under(p@, q) ==> (final(w).fs.dom().contains(q) == old(w).fs.dom().contains(q) && final(w).fs[q] == old(w).fs[q]), // [C13]
+{
+    let run_path = cfg.get_run_path(work_path).join(fmt_opaque());
+    // remove the run_path path if it exists, and create a new one
+@    assert(run_path.pview() == run_path@);
+    fs::remove_dir_all(&run_path, Tracked(w)).unwrap_or(());
+    fs::create_dir_all(&run_path, Tracked(w))?;
+    Ok(run_path)
+}
+//!end
 } // verus!
 fn main() {}
